@@ -180,19 +180,36 @@ def check_topk(prog: Program, res: Result) -> None:
             continue
         vals_t, idx_t = [norm(e) for e in st.targets[0].elts]
         a0, a1 = (c.args + [None, None])[:2]
-        res.ob(R, a0 is not None and norm(a0) == vals_t and "val" in norm(a0), fi.qualname, "top-k taken over the peak values",
-               f"top-k is taken over `{short(a0, 30) if a0 is not None else '?'}`", f"{fi.module.relpath}:{c.lineno}")
-        res.ob(R, a1 is not None and norm(a1) == "max_instances", fi.qualname, "k = max_instances", f"k is `{short(a1, 30) if a1 is not None else '?'}`", f"{fi.module.relpath}:{c.lineno}")
+        # the values: what is ranked must come from the peak VALUES returned by the peak finder (2nd result), not the coordinates
+        src = astq.expand_at(fi.node, a0, st, unpack_calls=False) if a0 is not None else None
+        pk = [s_ for s_ in walk_function(fi.node) if isinstance(s_, ast.Assign) and isinstance(s_.targets[0], ast.Tuple) and len(s_.targets[0].elts) == 4 and isinstance(s_.value, ast.Call)]
+        vals_names = {norm(s_.targets[0].elts[1]) for s_ in pk}
+        pts_names = {norm(s_.targets[0].elts[0]) for s_ in pk}
+        from_vals = src is not None and bool(astq.names_in(src) & vals_names) and not (astq.names_in(src) & pts_names)
+        res.ob(R, a0 is not None and norm(a0) == vals_t and from_vals, fi.qualname, "top-k taken over the peak values",
+               f"top-k is taken over `{short(a0, 30) if a0 is not None else '?'}` = `{short(src, 50) if src is not None else '?'}`", f"{fi.module.relpath}:{c.lineno}")
+        res.ob(R, a1 is not None and astq.xnorm(fi.node, a1) == "max_instances", fi.qualname, "k = max_instances", f"k is `{short(a1, 30) if a1 is not None else '?'}`", f"{fi.module.relpath}:{c.lineno}")
         kws = {k.arg: norm(k.value) for k in c.keywords}
         res.ob(R, kws.get("largest", "True") == "True", fi.qualname, "largest values kept", "top-k keeps the SMALLEST values (largest=False)", f"{fi.module.relpath}:{c.lineno}")
         blk = st._parent.body if hasattr(st._parent, "body") and st in st._parent.body else []
-        follow = [s for s in blk[blk.index(st) + 1:]] if blk else []
-        ok = any(isinstance(s, ast.Assign) and isinstance(s.value, ast.Subscript) and norm(s.value.slice) == idx_t and norm(s.targets[0]) == norm(s.value.value)
-                 and "peak" in norm(s.targets[0]) and "val" not in norm(s.targets[0]) for s in follow)
+        follow = [s_ for s_ in blk[blk.index(st) + 1:]] if blk else []
+        sel = [s_ for s_ in follow if isinstance(s_, ast.Assign) and isinstance(s_.value, ast.Subscript) and norm(s_.value.slice) == idx_t and norm(s_.targets[0]) == norm(s_.value.value)
+               and norm(s_.targets[0]) != vals_t]
+        ok = len(sel) == 1
+        pts_t = norm(sel[0].targets[0]) if ok else None
+        if ok:
+            psrc = astq.expand_at(fi.node, sel[0].value.value, sel[0])
+            ok = bool(astq.names_in(psrc) & pts_names)
         res.ob(R, ok, fi.qualname, "returned indices select the peaks", "the indices returned by topk are not applied to the peak coordinates", f"{fi.module.relpath}:{c.lineno}")
         g = [a for a in ancestors(c) if isinstance(a, ast.If)]
-        ok = bool(g) and norm(g[0].test) in ("len(current_peaks) > max_instances", "max_instances < len(current_peaks)")
-        res.ob(R, ok, fi.qualname, "cut only when there are more peaks than max_instances", f"the top-k cut is guarded by `{short(g[0].test, 40) if g else 'nothing'}`", f"{fi.module.relpath}:{c.lineno}")
+        t = g[0].test if g else None
+        ok = isinstance(t, ast.Compare) and len(t.ops) == 1
+        if ok:
+            l, r_ = norm(t.left), norm(t.comparators[0])
+            lens = {f"len({pts_t})", f"len({vals_t})", f"{pts_t}.shape[0]", f"{vals_t}.shape[0]", f"{pts_t}.size(0)"}
+            k_ = norm(a1) if a1 is not None else "?"
+            ok = (isinstance(t.ops[0], ast.Gt) and l in lens and r_ == k_) or (isinstance(t.ops[0], ast.Lt) and r_ in lens and l == k_)
+        res.ob(R, ok, fi.qualname, "cut only when there are more peaks than max_instances", f"the top-k cut is guarded by `{short(t, 40) if t is not None else 'nothing'}`", f"{fi.module.relpath}:{c.lineno}")
     res.floor(R, 6)
 
 
